@@ -630,7 +630,7 @@ func (l *lexer) lexFuncDef() action {
 }
 
 func (l *lexer) lexToken(tok int) action {
-	if tok == 0 && l.heredoc.exists() {
+	if tok <= 0 && l.heredoc.exists() {
 		// EOF before the here-documents of the last line
 		return l.lexHeredoc
 	}
